@@ -105,6 +105,12 @@ func Authenticate(ab *authboss.Authboss, w http.ResponseWriter, req **http.Reque
 	}
 
 	index := bytes.IndexByte(rawToken, ';')
+	// The pid may itself contain the separator (OAuth2 pids always do). The
+	// nonce has a fixed size, so the real separator sits at a fixed distance
+	// from the end of every token GenerateToken makes.
+	if alt := len(rawToken) - nNonceSize - 1; alt >= 0 && rawToken[alt] == ';' {
+		index = alt
+	}
 	if index < 0 {
 		authboss.DelCookie(w, authboss.CookieRemember)
 		logger.Infof("failed to decode remember me token, deleting cookie")
